@@ -6,6 +6,7 @@ use chrono::{NaiveDate, NaiveDateTime};
 use qrlew::data_type::{self, intervals::Intervals, value::Value, DataType, DataTyped, Variant as _};
 use serde_json::{json, Value as J};
 use std::collections::BTreeMap;
+use std::ops::Deref;
 use std::sync::Arc;
 
 #[derive(Clone)]
@@ -216,6 +217,438 @@ pub fn lattice(_args: &[String]) -> i32 {
         obs["count"] = json!(count);
         obs["embs"] = json!(embs);
         out.put(&obs);
+    }
+    out.flush();
+    0
+}
+
+// ---------------------------------------------------------------------------------------------
+// expressions (C06, C10)
+
+use qrlew::data_type::function::Function as _;
+use qrlew::expr::{aggregate::Aggregate, function::Function as F, Expr};
+
+pub fn function_by_name(name: &str) -> Option<F> {
+    Some(match name {
+        "opposite" => F::Opposite,
+        "not" => F::Not,
+        "plus" => F::Plus,
+        "minus" => F::Minus,
+        "multiply" => F::Multiply,
+        "divide" => F::Divide,
+        "modulo" => F::Modulo,
+        "string_concat" => F::StringConcat,
+        "in_list" => F::InList,
+        "gt" => F::Gt,
+        "lt" => F::Lt,
+        "gt_eq" => F::GtEq,
+        "lt_eq" => F::LtEq,
+        "eq" => F::Eq,
+        "not_eq" => F::NotEq,
+        "and" => F::And,
+        "or" => F::Or,
+        "xor" => F::Xor,
+        "exp" => F::Exp,
+        "ln" => F::Ln,
+        "log" => F::Log,
+        "abs" => F::Abs,
+        "sin" => F::Sin,
+        "cos" => F::Cos,
+        "sqrt" => F::Sqrt,
+        "pow" => F::Pow,
+        "case" => F::Case,
+        "concat" => F::Concat(2),
+        "char_length" => F::CharLength,
+        "lower" => F::Lower,
+        "upper" => F::Upper,
+        "md5" => F::Md5,
+        "position" => F::Position,
+        "cast_as_text" => F::CastAsText,
+        "cast_as_float" => F::CastAsFloat,
+        "cast_as_integer" => F::CastAsInteger,
+        "cast_as_boolean" => F::CastAsBoolean,
+        "cast_as_date_time" => F::CastAsDateTime,
+        "cast_as_date" => F::CastAsDate,
+        "least" => F::Least,
+        "greatest" => F::Greatest,
+        "rtrim" => F::Rtrim,
+        "ltrim" => F::Ltrim,
+        "substr" => F::Substr,
+        "substr_with_size" => F::SubstrWithSize,
+        "ceil" => F::Ceil,
+        "floor" => F::Floor,
+        "round" => F::Round,
+        "trunc" => F::Trunc,
+        "extract_year" => F::ExtractYear,
+        "extract_month" => F::ExtractMonth,
+        "extract_day" => F::ExtractDay,
+        "extract_hour" => F::ExtractHour,
+        "extract_dow" => F::ExtractDow,
+        "extract_week" => F::ExtractWeek,
+        "extract_epoch" => F::ExtractEpoch,
+        "dayname" => F::Dayname,
+        "quarter" => F::Quarter,
+        "date" => F::Date,
+        "unix_timestamp" => F::UnixTimestamp,
+        "coalesce" => F::Coalesce,
+        "sign" => F::Sign,
+        "is_null" => F::IsNull,
+        "like" => F::Like,
+        _ => return None,
+    })
+}
+
+pub fn aggregate_by_name(name: &str) -> Option<Aggregate> {
+    Some(match name {
+        "min" => Aggregate::Min,
+        "max" => Aggregate::Max,
+        "median" => Aggregate::Median,
+        "n_unique" => Aggregate::NUnique,
+        "first" => Aggregate::First,
+        "last" => Aggregate::Last,
+        "mean" => Aggregate::Mean,
+        "mean_distinct" => Aggregate::MeanDistinct,
+        "count" => Aggregate::Count,
+        "count_distinct" => Aggregate::CountDistinct,
+        "sum" => Aggregate::Sum,
+        "sum_distinct" => Aggregate::SumDistinct,
+        "std" => Aggregate::Std,
+        "std_distinct" => Aggregate::StdDistinct,
+        "var" => Aggregate::Var,
+        "var_distinct" => Aggregate::VarDistinct,
+        _ => return None,
+    })
+}
+
+/// term: {"col": i} | {"lit": abstract value} | {"f": name, "args": [term]} | {"agg": name, "arg": term}
+pub fn conc_expr(t: &J, e: &Emb) -> Expr {
+    if let Some(i) = t.get("col").and_then(|c| c.as_u64()) {
+        return Expr::col(format!("c{}", i));
+    }
+    if let Some(v) = t.get("lit") {
+        return Expr::Value(conc_value(v, e));
+    }
+    if let Some(l) = t.get("list").and_then(|l| l.as_array()) {
+        return Expr::Value(Value::list(l.iter().map(|v| conc_value(v, e)).collect::<Vec<_>>()));
+    }
+    if let Some(a) = t.get("agg").and_then(|a| a.as_str()) {
+        return Expr::Aggregate(qrlew::expr::Aggregate::new(aggregate_by_name(a).expect("aggregate"), Arc::new(conc_expr(&t["arg"], e))));
+    }
+    let f = function_by_name(t["f"].as_str().unwrap()).expect("function");
+    Expr::Function(qrlew::expr::Function::new(f, t["args"].as_array().unwrap().iter().map(|a| Arc::new(conc_expr(a, e))).collect()))
+}
+
+/// universe values inside an abstract column type (for the enumeration of rows)
+fn points_of(t: &J, n: usize) -> Vec<J> {
+    match t["k"].as_str().unwrap() {
+        "opt" => {
+            let mut v = vec![json!({"k": "none"})];
+            v.extend(points_of(&t["t"], n).into_iter().map(|x| json!({"k": "some", "v": x})));
+            v
+        }
+        "list" => {
+            // lists of universe values of the element type, of every admissible length up to 3
+            let el = points_of(&t["t"], n);
+            let lo = t["lo"].as_u64().unwrap() as usize;
+            let hi = (t["hi"].as_u64().unwrap() as usize).min(3);
+            let mut out: Vec<Vec<J>> = vec![vec![]];
+            let mut all: Vec<Vec<J>> = vec![];
+            for len in 0..=hi {
+                if len >= lo {
+                    all.extend(out.iter().cloned());
+                }
+                if len < hi {
+                    let mut next = vec![];
+                    for l in &out {
+                        for x in &el {
+                            let mut m = l.clone();
+                            m.push(x.clone());
+                            next.push(m);
+                        }
+                    }
+                    out = next;
+                }
+            }
+            all.into_iter().map(|vs| json!({"k": "listv", "vs": vs})).collect()
+        }
+        "struct" => {
+            // the product of the fields' points
+            let fields = t["fields"].as_array().unwrap();
+            let mut rows: Vec<Vec<J>> = vec![vec![]];
+            for f in fields {
+                let pts = points_of(&f["t"], n);
+                rows = rows.iter().flat_map(|r| pts.iter().map(move |p| { let mut m = r.clone(); m.push(json!({"n": f["n"], "v": p})); m })).collect();
+            }
+            rows.into_iter().map(|fs| json!({"k": "structv", "fields": fs})).collect()
+        }
+        k @ ("bool" | "int" | "float" | "text" | "date" | "datetime") => {
+            let mut out = vec![];
+            for p in t["ivs"].as_array().unwrap() {
+                for x in p[0].as_u64().unwrap()..=p[1].as_u64().unwrap() {
+                    let _ = n;
+                    out.push(json!({"k": k, "v": x}));
+                }
+            }
+            out
+        }
+        _ => vec![],
+    }
+}
+
+fn rows_of(cols: &[J], n: usize, cap: usize) -> Vec<Vec<J>> {
+    let mut rows: Vec<Vec<J>> = vec![vec![]];
+    for c in cols {
+        let pts = points_of(c, n);
+        let mut next = vec![];
+        for r in &rows {
+            for p in &pts {
+                let mut m = r.clone();
+                m.push(p.clone());
+                next.push(m);
+            }
+        }
+        rows = next;
+        if rows.len() > cap {
+            // thin out deterministically
+            let step = rows.len() / cap + 1;
+            rows = rows.into_iter().step_by(step).collect();
+        }
+    }
+    rows
+}
+
+fn more_embeddings() -> Vec<Emb> {
+    let mut v = embeddings();
+    let base = v[0].clone();
+    v.push(Emb { name: "around_zero", ints: vec![-2, -1, 0, 1, 2], floats: vec![-1.5, -0.5, 0.0, 0.5, 1.5], ..base.clone() });
+    v.push(Emb { name: "positive", ints: vec![1, 2, 3, 10, 1000], floats: vec![0.25, 1.0, 2.5, 10.0, 1e6], ..base });
+    v
+}
+
+/// C06: range propagation.  stdin: {"n": N} then {"expr": term, "cols": [types]} per line.
+pub fn image(_args: &[String]) -> i32 {
+    let mut cases = read_cases();
+    let header = cases.remove(0);
+    let n = header["n"].as_u64().unwrap() as usize;
+    let mut out = Out::new();
+    for e in more_embeddings() {
+        for (ci, c) in cases.iter().enumerate() {
+            let cols: Vec<J> = c["cols"].as_array().unwrap().clone();
+            let r = guarded(|| {
+                let expr = conc_expr(&c["expr"], &e);
+                let st = DataType::structured(cols.iter().enumerate().map(|(i, t)| (format!("c{}", i), conc_type(t, &e))).collect::<Vec<_>>());
+                let img = guarded(|| expr.super_image(&st));
+                let (image_outcome, image) = match &img {
+                    Ok(Ok(t)) => ("ok", crate::dt::dt_json(t)),
+                    Ok(Err(er)) => ("err", json!(format!("{er}"))),
+                    Err(p) => ("panic", json!(p)),
+                };
+                let mut pts = vec![];
+                for row in rows_of(&cols, n, 48) {
+                    let rv = Value::structured(row.iter().enumerate().map(|(i, v)| (format!("c{}", i), conc_value(v, &e))).collect::<Vec<_>>());
+                    let y = guarded(|| expr.value(&rv));
+                    let (vo, yj, inside) = match &y {
+                        Ok(Ok(y)) => ("ok", crate::dt::value_json(y), match &img {
+                            Ok(Ok(t)) => member(t, y),
+                            _ => false,
+                        }),
+                        Ok(Err(er)) => ("err", json!(format!("{er}").chars().take(120).collect::<String>()), false),
+                        Err(p) => ("panic", json!(p), false),
+                    };
+                    pts.push(json!({"row": row, "value": vo, "y": yj, "lib_contains": inside}));
+                }
+                json!({"case": ci, "emb": e.name, "image": image_outcome, "image_type": image, "points": pts})
+            });
+            out.put(&r.unwrap_or_else(|p| json!({"case": ci, "emb": e.name, "image": "harness_panic", "image_type": p, "points": []})));
+        }
+    }
+    out.flush();
+    0
+}
+
+/// C10: filter narrowing.  stdin: {"n": N} then {"pred": term, "cols": [types]} per line.
+pub fn filter(_args: &[String]) -> i32 {
+    let mut cases = read_cases();
+    let header = cases.remove(0);
+    let n = header["n"].as_u64().unwrap() as usize;
+    let mut out = Out::new();
+    for e in more_embeddings() {
+        for (ci, c) in cases.iter().enumerate() {
+            let cols: Vec<J> = c["cols"].as_array().unwrap().clone();
+            let r = guarded(|| {
+                let pred = conc_expr(&c["pred"], &e);
+                let st = DataType::structured(cols.iter().enumerate().map(|(i, t)| (format!("c{}", i), conc_type(t, &e))).collect::<Vec<_>>());
+                let narrowed = guarded(|| st.filter(&pred));
+                let (fo, nt) = match &narrowed {
+                    Ok(t) => ("ok", abs_type(t, &e, n)),
+                    Err(p) => ("panic", json!({"k": "err", "msg": p})),
+                };
+                let mut rows = vec![];
+                for row in rows_of(&cols, n, 64) {
+                    let rv = Value::structured(row.iter().enumerate().map(|(i, v)| (format!("c{}", i), conc_value(v, &e))).collect::<Vec<_>>());
+                    let p = guarded(|| pred.value(&rv));
+                    let pv = match &p {
+                        Ok(Ok(Value::Boolean(b))) => {
+                            if *b.deref() {
+                                "true"
+                            } else {
+                                "false"
+                            }
+                        }
+                        Ok(Ok(Value::Optional(o))) => match o.as_deref() {
+                            Some(Value::Boolean(b)) => {
+                                if *b.deref() {
+                                    "true"
+                                } else {
+                                    "false"
+                                }
+                            }
+                            None => "null",
+                            _ => "other",
+                        },
+                        Ok(Ok(_)) => "other",
+                        Ok(Err(_)) => "err",
+                        Err(_) => "panic",
+                    };
+                    // membership modulo the library's own injection, field by field: narrowing an integer column
+                    // against a float literal types it as float, and an integer row value belongs to it once injected
+                    let inside = match &narrowed {
+                        Ok(DataType::Struct(s)) => {
+                            s.fields().len() == row.len()
+                                && s.fields().iter().zip(row.iter()).all(|((_, ft), v)| member(ft, &conc_value(v, &e)))
+                        }
+                        Ok(t) => t.contains(&rv),
+                        Err(_) => false,
+                    };
+                    let before = st.contains(&rv);
+                    rows.push(json!({"row": row, "pred": pv, "in": inside, "in_input": before}));
+                }
+                json!({"case": ci, "emb": e.name, "filter": fo, "narrowed": nt, "rows": rows})
+            });
+            out.put(&r.unwrap_or_else(|p| json!({"case": ci, "emb": e.name, "filter": "harness_panic", "narrowed": {"k": "err", "msg": p}, "rows": []})));
+        }
+    }
+    out.flush();
+    0
+}
+
+/// C12: conversions.  stdin: {"n": N} then {"a": type, "to": kind} per line.
+pub fn convert(_args: &[String]) -> i32 {
+    use qrlew::data_type::injection::{InjectInto, Injection};
+    let mut cases = read_cases();
+    let header = cases.remove(0);
+    let n = header["n"].as_u64().unwrap() as usize;
+    let mut out = Out::new();
+    let full = |k: &str, e: &Emb| -> DataType {
+        match k {
+            "bool" => DataType::boolean(),
+            "int" => DataType::integer(),
+            "float" => DataType::float(),
+            "text" => DataType::text(),
+            "date" => DataType::date(),
+            "datetime" => DataType::date_time(),
+            "bytes" => DataType::bytes(),
+            "opt_int" => DataType::optional(DataType::integer()),
+            "opt_same" => DataType::Any, // replaced below
+            "struct_x" => DataType::structured([("x", conc_type(&json!({"k": "int", "ivs": [[0, 4]]}), e))]),
+            k => panic!("target {k}"),
+        }
+    };
+    for e in embeddings() {
+        for (ci, c) in cases.iter().enumerate() {
+            let r = guarded(|| {
+                let a = conc_type(&c["a"], &e);
+                let to = c["to"].as_str().unwrap();
+                let target = if to == "opt_same" { DataType::optional(a.maximal_superset().unwrap_or(DataType::Any)) } else { full(to, &e) };
+                let conv = guarded(|| a.into_data_type(&target));
+                let (co, a2) = match &conv {
+                    Ok(Ok(t)) => ("ok", Some(t.clone())),
+                    Ok(Err(_)) => ("err", None),
+                    Err(_) => ("panic", None),
+                };
+                let inj = guarded(|| a.inject_into(&target));
+                let mut vals = vec![];
+                let mut images: Vec<String> = vec![];
+                for vj in points_of(&c["a"], n) {
+                    let v = conc_value(&vj, &e);
+                    // facts about the source value (what makes a conversion lossy)
+                    let (integral, is01, midnight) = match &v {
+                        Value::Float(f) => (f.fract() == 0.0 && f.abs() < 9.2e18, **f == 0.0 || **f == 1.0, true),
+                        Value::Integer(i) => (true, **i == 0 || **i == 1, true),
+                        Value::DateTime(d) => (true, true, d.time() == chrono::NaiveTime::from_hms_opt(0, 0, 0).unwrap()),
+                        _ => (true, true, true),
+                    };
+                    let mut why = String::new();
+                    let w = match &inj {
+                        Ok(Ok(i)) => match guarded(|| i.value(&v)) {
+                            Ok(Ok(w)) => Ok(w),
+                            Ok(Err(x)) => {
+                                why = x.to_string();
+                                Err("err")
+                            }
+                            Err(p) => {
+                                why = p;
+                                Err("panic")
+                            }
+                        },
+                        Ok(Err(x)) => {
+                            why = x.to_string();
+                            Err("err")
+                        }
+                        Err(p) => {
+                            why = p.clone();
+                            Err("panic")
+                        }
+                    };
+                    let mut rec = json!({"v": vj, "integral": integral, "is01": is01, "midnight": midnight});
+                    match w {
+                        Ok(w) => {
+                            let key = format!("{:?}", w);
+                            let id = match images.iter().position(|k| k == &key) {
+                                Some(i) => i,
+                                None => {
+                                    images.push(key);
+                                    images.len() - 1
+                                }
+                            };
+                            rec["out"] = json!("ok");
+                            rec["image_id"] = json!(id);
+                            rec["in_converted"] = json!(a2.as_ref().map(|t| t.contains(&w)).unwrap_or(false));
+                            // back
+                            // the reverse conversion exists when the converted type converts back into the variant of the source
+                            let back = guarded(|| {
+                                a2.as_ref()
+                                    .filter(|t| matches!(guarded(|| t.into_data_type(&a)), Ok(Ok(_))))
+                                    .and_then(|t| t.inject_into(&a).ok())
+                                    .map(|bi| bi.value(&w))
+                            });
+                            rec["back"] = json!(match back {
+                                Ok(Some(Ok(b))) => {
+                                    if b == v {
+                                        "same"
+                                    } else {
+                                        "different"
+                                    }
+                                }
+                                Ok(Some(Err(_))) => "err",
+                                Ok(None) => "none",
+                                Err(_) => "panic",
+                            });
+                        }
+                        Err(o) => {
+                            rec["out"] = json!(o);
+                            rec["why"] = json!(why.chars().take(200).collect::<String>());
+                            rec["image_id"] = json!(-1);
+                            rec["in_converted"] = json!(false);
+                            rec["back"] = json!("none");
+                        }
+                    }
+                    vals.push(rec);
+                }
+                json!({"case": ci, "emb": e.name, "a": c["a"], "to": to, "type_conv": co, "vals": vals})
+            });
+            out.put(&r.unwrap_or_else(|p| json!({"case": ci, "emb": e.name, "a": c["a"], "to": c["to"], "type_conv": "harness_panic", "msg": p, "vals": []})));
+        }
     }
     out.flush();
     0
